@@ -135,3 +135,9 @@ func init() {
 		Rule: "one case = a history of graph/vertex/edge writes and deletes (with clean reopen in half of the cases) whose graph names, ids, labels, endpoints, property names and values come from hostile pools (0x00 separator, 0x01 edge-type byte, '|' '.' '/', unicode, empty, 300-byte strings, the internal words label/v/e/data/gid, prefixes of one another; deep nesting, empty containers, +-MaxFloat64, 2^53+1, strings with NUL); after every step the observable state over every identifier of the history must equal the abstract graph in which accepted writes are applied verbatim and rejected writes change nothing. non-trivial = at least 2 operations; distinct = distinct operation sequences",
 		Assumptions: []string{"acceptance is decided by the implementation (error return), the oracle only demands verbatim storage or no effect", "label listings are not compared (recorded C03 findings)"}}
 }
+
+func init() {
+	props["C09"] = &propCfg{Level: "exploration", QuickRuns: 4000, QuickS: 50, ThoroughRuns: 400000, ThoroughS: 1500,
+		Rule: "one case = a history of AddField/RemoveField/AddDoc (new and replacing)/RemoveDoc/reopen over 3 fields (one nested), 4 document ids, string terms and numeric terms over sign/magnitude boundary values (+-1e9, +-MaxFloat64, SmallestNonzero, fractions, zero); after every step ~100 query results (term match, field terms, term counts, string term counts, min, max, ascending listing, five numeric windows) are compared with a brute-force scan of the live documents; the streaming query goroutines run under a seeded schedule with scaled channel capacities. non-trivial = at least 2 operations; distinct = distinct operation sequences",
+		Assumptions: []string{"numeric window boundaries are not judged (inclusivity undocumented)", "min/max with no numeric term are not judged", "-0.0 is not generated (the index distinguishes it from 0 by bytes, a scan does not)"}}
+}
